@@ -35,13 +35,17 @@ def check_pair(f, ty, ay, tx, ax, st, hy, hx, full=True):
             st.violation({'Y': [v + 3 for v in ty], 'X': [v + 1 for v in tx]}, f'codes shifted away from 0: score {float(s3)!r} but plug-in MI={ref!r}', {'kind': 'value_offset'})
         if len(ty) <= 5:
             # codes that are multiples of 2^16 / 2^8 (any narrower integer type used for codes or counts folds them together)
-            for my, mx in ((65536, 1), (1, 65536), (256, 256)):
-                ok4, s4 = safe(f, ay * my, ax * mx, est._F1, False)
+            ky, kx = int(ay.max()), int(ax.max())
+            for my, mx in ((65536, 1), (1, 65536), (256, 256), (-65536, -1000)):
+                # a negative factor maps code c to (max-c)*|factor|: sparse codes whose first appearances are in DESCENDING order
+                vy = ay * my if my > 0 else (ky - ay) * (-my)
+                vx = ax * mx if mx > 0 else (kx - ax) * (-mx)
+                ok4, s4 = safe(f, vy, vx, est._F1, False)
                 st.count('evaluations')
                 if not ok4:
-                    st.violation({'Y': [v * my for v in ty], 'X': [v * mx for v in tx]}, f'exception: {s4}', {'kind': 'exception'})
+                    st.violation({'Y': vy.tolist(), 'X': vx.tolist()}, f'exception: {s4}', {'kind': 'exception'})
                 elif not est.near(float(s4), ref):
-                    st.violation({'Y': [v * my for v in ty], 'X': [v * mx for v in tx]}, f'codes spread over a wide range: score {float(s4)!r} but plug-in MI={ref!r}', {'kind': 'value_wide_codes'})
+                    st.violation({'Y': vy.tolist(), 'X': vx.tolist()}, f'codes spread over a wide range: score {float(s4)!r} but plug-in MI={ref!r}', {'kind': 'value_wide_codes'})
     if not (ok1 and ok2):
         st.violation({'Y': ty, 'X': tx}, f'exception: {s1 if not ok1 else s2}', {'kind': 'exception'})
         return
@@ -72,11 +76,12 @@ def _shard_pairs(job):
     st = Stats()
     f = est.estimator()
     A = est.arrs(n)
+    A2 = est.arrs2(n)
     H = [refs.entropy(t) for t, _ in A]
     for i in range(lo, hi):
         ty, ay = A[i]
         for j in range(i, len(A)):
-            tx, ax = A[j]
+            tx, ax = A2[j]
             check_pair(f, ty, ay, tx, ax, st, H[i], H[j])
             if H[i] > 0 and H[j] > 0 and i != j:
                 st.count('nontrivial')
